@@ -41,6 +41,7 @@ VARIABLES gates,   \* the record `_gates` (accepted gates with their current par
           tnv,     \* the state that network denotes, Run(N, tn)
           store,   \* memo: key -> [ver, tn, gs]  (snapshot the entry was computed from)
           sng,     \* _sample_n_gates
+          mss,     \* does the attribute _marginal_storage_size exist (it is created by clear_storage only)
           ver,     \* history version: bumped by every change of gates / parameters
           perm,    \* CircuitPermMPS.qubits : perm[s + 1] = logical qubit held by physical site s
           phys,    \* state of the MPS in physical site order
@@ -50,8 +51,8 @@ VARIABLES gates,   \* the record `_gates` (accepted gates with their current par
           fresh,   \* the last query read no memo entry of another version
           depth, fam, act, hist
 
-vars == <<gates, reg, tn, tnv, store, sng, ver, perm, phys, other, rej, qok, fresh, depth, fam, act, hist>>
-view == <<gates, reg, tn, tnv, store, sng, ver, perm, phys, other, rej, qok, fresh, depth>>
+vars == <<gates, reg, tn, tnv, store, sng, mss, ver, perm, phys, other, rej, qok, fresh, depth, fam, act, hist>>
+view == <<gates, reg, tn, tnv, store, sng, mss, ver, perm, phys, other, rej, qok, fresh, depth>>
 
 Exact == Cls = "exact"
 PermC == Cls \in {"perm-ss", "perm-auto"}
@@ -86,7 +87,23 @@ Cone(gs, i, cone, acc) ==
 Tensorless(g) == g.c = <<>> /\ g.name \in {"SWAP", "IDEN"}
 ConeAll(e, where) ==
   LET keepi == Cone(e.gs, Len(e.gs), where, {}) IN
-  \A i \in 1..Len(e.tn) : i \in keepi \/ Tensorless(e.tn[i]) \/ e.tn[i].name = "IDEN"
+  \A i \in 1..Len(e.tn) : i \in keepi \/ Tensorless(e.tn[i])
+\* Dropping the tensors of a gate cuts its wires: that is harmless only if nothing that is kept sits later on those
+\* wires and none of them ends in the queried region (then ket and bra contract to the identity there).
+RECURSIVE WireAt(_, _, _, _)
+WireAt(gs, i, j, w) ==      \* position just before gate j of the wire that leaves gate i at position w
+  IF i + 1 >= j THEN w
+  ELSE LET g == gs[i + 1] IN
+       WireAt(gs, i + 1, j, IF g.c = <<>> /\ g.name = "SWAP"
+                            THEN (IF w = g.q[1] THEN g.q[2] ELSE IF w = g.q[2] THEN g.q[1] ELSE w) ELSE w)
+Regs(g) == SetOfSeq(g.q) \cup SetOfSeq(g.c)
+CutOK(e, where) ==
+  LET keepi == Cone(e.gs, Len(e.gs), where, {})
+      n == Len(e.tn) IN
+  \A i \in 1..n : (~Tensorless(e.tn[i]) /\ i \notin keepi) =>
+     /\ \A j \in (i + 1)..n : (~Tensorless(e.tn[j]) /\ j \in keepi) =>
+            {WireAt(e.tn, i, j, w) : w \in Regs(e.tn[i])} \cap Regs(e.tn[j]) = {}
+     /\ {WireAt(e.tn, i, n + 1, w) : w \in Regs(e.tn[i])} \cap where = {}
 ConeGates(e, where) ==
   LET keepi == Cone(e.gs, Len(e.gs), where, {}) IN
   TLCEval([i \in 1..Len(e.tn) |-> IF i \in keepi \/ Tensorless(e.tn[i]) THEN Plain(e.tn[i])
@@ -120,14 +137,17 @@ QKey(q) ==
     [] q.kind = "uni"    -> <<"none", 0>>
     [] OTHER             -> <<"none", 0>>      \* kinds that exist only in the replays (sampleprob, gbg)
 \* the value the implementation returns from the snapshot e = [ver, sv (= Run(N, tn)), tn, gs]
-ConeState(e, where) == IF ConeAll(e, where) THEN e.sv ELSE Run(N, ConeGates(e, where))
+ConeState(e, where) == IF ConeAll(e, where) THEN e.sv
+                       ELSE IF ~CutOK(e, where) THEN <<>>          \* a cut wire: garbage or KeyError, never the value
+                       ELSE Run(N, ConeGates(e, where))
 QImpl(q, e) ==
   CASE q.kind = "amp"    -> Amp(e.sv, q.b)
     [] q.kind = "dense"  -> Dense(e.sv, N, q.rev)
     [] q.kind = "uni"    -> Uni(N, e.tn)
-    [] q.kind = "ptr"    -> RDM(ConeState(e, Region(q)), q.keep, N)
-    [] q.kind = "expec"  -> Expec(ConeState(e, Region(q)), OpM(q.op), q.where, N)
-    [] q.kind = "marg"   -> Marginal(IF Region(q) = 0..N - 1 THEN e.sv ELSE ConeState(e, Region(q)), q.where, q.fix, N)
+    [] q.kind = "ptr"    -> LET st == ConeState(e, Region(q)) IN IF st = <<>> THEN <<>> ELSE RDM(st, q.keep, N)
+    [] q.kind = "expec"  -> LET st == ConeState(e, Region(q)) IN IF st = <<>> THEN <<>> ELSE Expec(st, OpM(q.op), q.where, N)
+    [] q.kind = "marg"   -> LET st == IF Region(q) = 0..N - 1 THEN e.sv ELSE ConeState(e, Region(q)) IN
+                            IF st = <<>> THEN <<>> ELSE Marginal(st, q.where, q.fix, N)
     [] q.kind = "sample" -> Support(e.sv)
 
 (* --------------------- CircuitPermMPS bookkeeping -------------------------- *)
@@ -147,7 +167,7 @@ Logical(v, pm) ==
   TLCEval([xx \in 1..(2 ^ N) |-> v[SubIdx(xx - 1, pm, N, 1) + 1]])
 
 (* ------------------------------ actions ------------------------------------ *)
-Me == [gates |-> gates, reg |-> reg, tn |-> tn, tnv |-> tnv, store |-> store, sng |-> sng, ver |-> ver, perm |-> perm, phys |-> phys]
+Me == [gates |-> gates, reg |-> reg, tn |-> tn, tnv |-> tnv, store |-> store, sng |-> sng, mss |-> mss, ver |-> ver, perm |-> perm, phys |-> phys]
 \* Per-action coverage.  TLC's own -coverage builds a cost tree that expands every operator application of the
 \* ring arithmetic in place (it does not fit in memory for this specification), so the actions count themselves
 \* in TLC registers (one set per worker) and report when a counter reaches a power of ten.
@@ -168,13 +188,14 @@ ParamCtl(g) == g.par /\ g.c # <<>>            \* PArray has no reshape: Attribut
 \* ---- exact Circuit
 ApplyExact(g) ==
   /\ Exact
+  /\ (g.name = "IDEN" /\ g.c # <<>>) => "cone-ctliden" \in Deviations       \* KF-C07-5
   /\ IF ParamCtl(g)
      THEN /\ UNCHANGED <<gates, reg, tn, tnv, ver>> /\ rej' = TRUE
      ELSE /\ gates' = Append(gates, g) /\ tn' = Append(tn, g) /\ ver' = ver + 1 /\ rej' = FALSE
           /\ LET r1 == StepGate(reg, g, N) IN
              /\ reg' = IF Record THEN reg ELSE r1
              /\ tnv' = IF Record THEN tnv ELSE IF tnv = reg THEN r1 ELSE StepGate(tnv, g, N)
-  /\ UNCHANGED <<store, sng, perm, phys, other, qok, fresh>>
+  /\ UNCHANGED <<store, sng, mss, perm, phys, other, qok, fresh>>
 
 \* ---- CircuitPermMPS._apply_gate
 ApplyPerm(g) ==
@@ -212,7 +233,7 @@ ApplyPerm(g) ==
         IN  accept(Apply(MoveSite(phys, j0, i0 + 1), U, fw, <<>>, N))
      ELSE IF Cls = "perm-ss" THEN raise(perm1)         \* 3 sites with swap+split: ValueError, nothing touched
      ELSE accept(Apply(phys, U, physq, <<>>, N))       \* 'nonlocal' sub-MPO, no site movement
-  /\ UNCHANGED <<store, sng, other, qok, fresh, tnv>>
+  /\ UNCHANGED <<store, sng, mss, other, qok, fresh, tnv>>
 
 ApplyGate(g) == (ApplyExact(g) \/ ApplyPerm(g)) /\ Bump([op |-> "gate", g |-> g])
 
@@ -224,7 +245,7 @@ SetParams(i, p) ==
   /\ LET r1 == Run(N, SetP(gates, i, p)) IN
      /\ reg' = IF Record THEN reg ELSE r1
      /\ tnv' = IF Record THEN tnv ELSE IF tn = gates THEN r1 ELSE Run(N, SetP(tn, i, p))
-  /\ store' = EmptyStore /\ sng' = Len(gates) /\ ver' = ver + 1 /\ rej' = FALSE     \* clear_storage()
+  /\ store' = EmptyStore /\ sng' = Len(gates) /\ mss' = TRUE /\ ver' = ver + 1 /\ rej' = FALSE     \* clear_storage()
   /\ UNCHANGED <<perm, phys, other, qok, fresh>>
   /\ Bump([op |-> "setp", i |-> i - 1, p |-> p])
 
@@ -233,7 +254,8 @@ SetParams(i, p) ==
 NextP(g) == IF g.par THEN (CHOOSE p \in NewParams[g.name] : p # g.p) ELSE g.p
 UpdateParams ==
   /\ Exact /\ \E i \in DOMAIN gates : gates[i].par
-  /\ LET bad == {i \in DOMAIN gates : Tensorless(gates[i])}          \* tn[GATE_i] raises KeyError
+  /\ LET \* tn[GATE_i] raises KeyError (no tensor) / the label check raises ValueError (raw gates carry no label tag)
+         bad == {i \in DOMAIN gates : Tensorless(gates[i]) \/ gates[i].name \in RawNames1 \cup RawNames2 \cup RawNames3}
          stop == IF bad = {} THEN Len(gates) + 1 ELSE CHOOSE i \in bad : \A j \in bad : i <= j
          upd(gs) == TLCEval([i \in DOMAIN gs |-> IF i < stop THEN [gs[i] EXCEPT !.p = NextP(gates[i])] ELSE gs[i]])
      IN
@@ -243,24 +265,25 @@ UpdateParams ==
              /\ LET r1 == Run(N, upd(gates)) IN
                 /\ reg' = IF Record THEN reg ELSE r1
                 /\ tnv' = IF Record THEN tnv ELSE IF tn = gates THEN r1 ELSE Run(N, upd(tn))
-             /\ store' = EmptyStore /\ sng' = Len(gates) /\ ver' = ver + 1
+             /\ store' = EmptyStore /\ sng' = Len(gates) /\ mss' = TRUE /\ ver' = ver + 1
         ELSE \* KeyError in the middle of the loop: earlier gates are already updated, clear_storage() is not reached
              /\ gates' = upd(gates) /\ tn' = upd(tn) /\ rej' = TRUE
              /\ tnv' = IF Record THEN tnv ELSE Run(N, upd(tn))
-             /\ UNCHANGED <<reg, store, sng>> /\ ver' = ver + 1
+             /\ UNCHANGED <<reg, store, sng, mss>> /\ ver' = ver + 1
   /\ UNCHANGED <<perm, phys, other, qok, fresh>>
-  /\ Bump([op |-> "updp"])
+  /\ Bump([op |-> "updp", ps |-> SelectSeq([i \in DOMAIN gates |-> <<i - 1, NextP(gates[i])>>], LAMBDA t : gates[t[1] + 1].par)])
 
 \* ---- copy() and continuing on either object
 Copy ==
   /\ other = <<>> /\ Len(gates) > 0
-  /\ other' = <<Me>> /\ rej' = FALSE
-  /\ UNCHANGED <<gates, reg, tn, tnv, store, sng, ver, perm, phys, qok, fresh>>
+  \* copy() copies _storage, _sampled_conditionals and _sample_n_gates but not _marginal_storage_size (KF-C07-7)
+  /\ other' = <<[Me EXCEPT !.mss = IF "copy-mss" \in Deviations THEN FALSE ELSE mss]>> /\ rej' = FALSE
+  /\ UNCHANGED <<gates, reg, tn, tnv, store, sng, mss, ver, perm, phys, qok, fresh>>
   /\ Bump([op |-> "copy"])
 Switch ==
   /\ other # <<>>
   /\ LET oth == other[1] IN
-     /\ gates' = oth.gates /\ reg' = oth.reg /\ tn' = oth.tn /\ tnv' = oth.tnv /\ store' = oth.store /\ sng' = oth.sng /\ ver' = oth.ver
+     /\ gates' = oth.gates /\ reg' = oth.reg /\ tn' = oth.tn /\ tnv' = oth.tnv /\ store' = oth.store /\ sng' = oth.sng /\ mss' = oth.mss /\ ver' = oth.ver
      /\ perm' = oth.perm /\ phys' = oth.phys
   /\ other' = <<Me>> /\ rej' = FALSE
   /\ UNCHANGED <<qok, fresh>>
@@ -276,6 +299,7 @@ QueryExact(q) ==
          e      == IF cached THEN store0[key] ELSE [ver |-> ver, sv |-> tnv, tn |-> tn, gs |-> gates]
      IN
      /\ sng' = IF key[1] = "none" THEN sng ELSE Len(gates)
+     /\ mss' = IF key[1] # "none" /\ init THEN TRUE ELSE mss
      /\ store' = IF key[1] = "none" THEN store ELSE IF cached THEN store0 ELSE (key :> e) @@ store0
      /\ fresh' = (e.ver = ver)
      /\ IF Record \/ ~cached THEN TRUE ELSE Tick("query-cached")
@@ -284,6 +308,7 @@ QueryExact(q) ==
      \* (when the snapshot is the current history and no gate is dropped by the cone the two sides are the
      \*  same expression: not evaluated twice)
      /\ qok' = IF Record THEN TRUE
+               ELSE IF q.kind = "sample" /\ ~(init \/ mss) THEN FALSE      \* AttributeError: the query does not return
                ELSE IF q.kind = "uni" THEN (e.tn = gates \/ Uni(N, e.tn) = Uni(N, gates))
                ELSE IF e.sv = reg /\ (q.kind \in {"amp", "dense", "sample"} \/ Region(q) = 0..N - 1 \/ ConeAll(e, Region(q))) THEN TRUE
                ELSE QImpl(q, e) = QRef(q, reg, gates)
@@ -294,11 +319,11 @@ QueryPerm(q) ==
             ELSE IF q.kind = "dense" THEN Dense(Logical(phys, perm), N, q.rev) = QRef(q, reg, gates)
             ELSE IF q.kind = "amp" THEN Amp(Logical(phys, perm), q.b) = QRef(q, reg, gates)
             ELSE Expec(phys, OpM(q.op), [i \in 1..Len(q.where) |-> IndexOf(perm, q.where[i])], N) = QRef(q, reg, gates)
-  /\ UNCHANGED <<gates, reg, tn, tnv, ver, perm, phys, other, store, sng, fresh>> /\ rej' = FALSE
+  /\ UNCHANGED <<gates, reg, tn, tnv, ver, perm, phys, other, store, sng, mss, fresh>> /\ rej' = FALSE
 Query(q) == (QueryExact(q) \/ QueryPerm(q)) /\ Bump([op |-> "query", q |-> q])
 
 Init ==
-  /\ gates = <<>> /\ tn = <<>> /\ store = EmptyStore /\ sng = 0 - 1 /\ ver = 0
+  /\ gates = <<>> /\ tn = <<>> /\ store = EmptyStore /\ sng = 0 - 1 /\ mss = FALSE /\ ver = 0
   /\ reg = IF Record THEN <<>> ELSE Basis(N, 0)
   /\ tnv = IF Record \/ ~Exact THEN <<>> ELSE Basis(N, 0)
   /\ phys = IF Record \/ Exact THEN <<>> ELSE Basis(N, 0)
@@ -311,25 +336,25 @@ GateFam(g) == IF g.c # <<>> THEN "ctl" ELSE IF g.name \in RawNames1 \cup RawName
               ELSE IF g.name \in {"SWAP", "IDEN"} THEN "spc" ELSE IF Len(g.q) = 1 THEN "c1"
               ELSE IF Len(g.q) = 2 THEN "c2" ELSE "c3"
 QFam(q) == "q:" \o q.kind
-Fams == {"c1", "c2", "c3", "ang", "par", "ctl", "raw", "spc", "setp", "setp2", "updp", "copy"}
+Fams == {"c1", "c2", "c3", "ang", "par", "par2", "ctl", "raw", "spc", "setp", "setp2", "updp", "updp2", "copy"}
         \cup {QFam(q) : q \in Queries}
 
-ApplyGateA    == \E g \in Gates : (fam = "none" \/ fam = GateFam(g)) /\ ApplyGate(g)
+ApplyGateA    == \E g \in Gates : (fam = "none" \/ fam = GateFam(g) \/ (fam = "par2" /\ GateFam(g) = "par")) /\ ApplyGate(g)
 SetParamsA    == (fam \in {"none", "setp", "setp2"}) /\ \E i \in DOMAIN gates : gates[i].par /\ \E p \in NewParams[gates[i].name] : SetParams(i, p)
-UpdateParamsA == (fam \in {"none", "updp"}) /\ UpdateParams
+UpdateParamsA == (fam \in {"none", "updp", "updp2"}) /\ UpdateParams
 CopyA         == (fam \in {"none", "copy"}) /\ Copy
 SwitchA       == (fam \in {"none", "copy"}) /\ Switch
 QueryA        == \E q \in Queries : (fam = "none" \/ fam = QFam(q)) /\ Query(q)
 Step == ApplyGateA \/ SetParamsA \/ UpdateParamsA \/ CopyA \/ SwitchA \/ QueryA
 \* behaviour generation draws the kind of the next action first, so that the kinds are balanced
 ChooseFam == /\ Record /\ fam = "none" /\ depth < MaxDepth /\ \E f \in Fams : fam' = f
-             /\ UNCHANGED <<gates, reg, tn, tnv, store, sng, ver, perm, phys, other, rej, qok, fresh, depth, act, hist>>
+             /\ UNCHANGED <<gates, reg, tn, tnv, store, sng, mss, ver, perm, phys, other, rej, qok, fresh, depth, act, hist>>
 GiveUp == /\ Record /\ fam \notin {"none", "done"} /\ ~ENABLED Step /\ fam' = "none"
-          /\ UNCHANGED <<gates, reg, tn, tnv, store, sng, ver, perm, phys, other, rej, qok, fresh, depth, act, hist>>
+          /\ UNCHANGED <<gates, reg, tn, tnv, store, sng, mss, ver, perm, phys, other, rej, qok, fresh, depth, act, hist>>
 \* (the simulator evaluates invariants on every candidate successor: the behaviour is emitted from the single
 \*  successor of a state that was really reached at the depth bound)
 Finish == /\ Record /\ depth = MaxDepth /\ fam = "none" /\ fam' = "done"
-          /\ UNCHANGED <<gates, reg, tn, tnv, store, sng, ver, perm, phys, other, rej, qok, fresh, depth, act, hist>>
+          /\ UNCHANGED <<gates, reg, tn, tnv, store, sng, mss, ver, perm, phys, other, rej, qok, fresh, depth, act, hist>>
 Next == IF Record THEN (ChooseFam \/ (fam \notin {"none", "done"} /\ Step) \/ GiveUp \/ Finish) ELSE Step
 Spec == Init /\ [][Next]_vars
 
